@@ -29,9 +29,10 @@ var builtin = []string{
 	"make", "max", "min", "new", "panic", "print", "println", "real", "recover",
 }
 
-// isIDValid checks if a name is a valid identifier in Go.
+// isIDValid checks if a name is a valid identifier in Go that can be used as a package name.
+// The blank identifier is an identifier, but nothing can be named with it.
 func isIDValid(name string) bool {
-	return idRegex.MatchString(name) && !generic.AnyMatch(builtin, func(s string) bool {
+	return idRegex.MatchString(name) && name != "_" && !generic.AnyMatch(builtin, func(s string) bool {
 		return s == name
 	})
 }
